@@ -461,6 +461,35 @@ def check_default_reducer(ctx, pairs):
                       f'folds is {expected}', witness)
 
 
+def check_stock_reducer(ctx, nfolds, nrows, seed):
+    """The reducer a stacked ensemble uses in apply mode when none is given (the default of ``FullStack(reducer=...)``): the
+    combined prediction of a record weighs all fold models of a base learner equally (series predictions - the
+    multi-column path needs an API pandas 3 removed)."""
+    import inspect
+    import random
+
+    import pandas
+    from forml.pipeline import ensemble
+
+    ctx.count('evaluations')
+    ctx.count('stock_reducer_cases')
+    ctx.shape(('stock-reducer', nfolds, nrows, seed % 97))
+    rng = random.Random(seed)
+    witness = {'stock_reducer': [nfolds, nrows, seed]}
+    reducer = inspect.signature(ensemble.FullStack.__init__).parameters['reducer'].default
+    folds = [[rng.randint(-64, 64) * 0.25 for _ in range(nrows)] for _ in range(nfolds)]
+    try:
+        result = reducer(*(pandas.Series(values, name='prediction') for values in folds))
+        observed = [float(v) for v in (result.iloc[:, 0] if getattr(result, 'ndim', 1) == 2 else result).tolist()]
+    except Exception as err:  # pylint: disable=broad-except
+        ctx.violation('stock-reducer-raises', f'the default apply-mode reducer raised {err!r} for {nfolds} fold predictions', witness)
+        return
+    expected = [sum(column) / nfolds for column in zip(*folds)]
+    if len(observed) != len(expected) or any(abs(o - e) > 1e-9 for o, e in zip(observed, expected)):
+        ctx.violation('apply-mode-fold-models-not-combined-equally', f'fold predictions {folds} reduced to {observed}, all fold models '
+                      f'weighed equally give {expected}', witness)
+
+
 INDEX_KINDS = ['range', 'permuted', 'shifted', 'reversed', 'strings', 'duplicates', 'floats']
 
 
@@ -592,13 +621,17 @@ def run(ctx):
             pairs = [(train, [r for r in test if r] or [1]) for train, test in pairs]
             pairs[crng.randrange(len(pairs))][1].append(0)
         check_default_reducer(ctx, pairs)
+    for k in range(ctx.pick(120, 1200) // ctx.nshards):
+        check_stock_reducer(ctx, 2 + k % 4, crng.randint(1, 5), crng.randrange(10**6))
     for k in range(ctx.pick(240, 4000) // ctx.nshards):
         check_pandas_splitter(ctx, concrete_pairs(crng), INDEX_KINDS[k % len(INDEX_KINDS)], crng.choice(INDEX_KINDS), crng.random() < 0.3,
                               crng.randrange(10**6))
 
 
 def replay(ctx, witness):
-    if witness.get('default_reducer'):
+    if witness.get('stock_reducer'):
+        check_stock_reducer(ctx, *witness['stock_reducer'])
+    elif witness.get('default_reducer'):
         check_default_reducer(ctx, [(list(a), list(b)) for a, b in witness['pairs']])
     elif witness.get('splitter') == 'pandas':
         check_pandas_splitter(ctx, [(list(a), list(b)) for a, b in witness['pairs']], witness['feature_index'], witness['label_index'],
